@@ -699,6 +699,18 @@ class Eval:
             if f in ("to_le_bytes", "to_be_bytes"):
                 return ("bytes", f[3:5], args[0], ty)
             if f in ("from_le_bytes", "from_be_bytes"):
+                a0 = args[0]
+                nb = w // 8
+                if isinstance(a0, Agg) and all((i in a0) for i in range(nb)):
+                    # an array of known bytes: the word is the OR of the shifted bytes (what a hand-written loader spells out)
+                    acc = None
+                    for i in range(nb):
+                        sh = 8 * i if f == "from_le_bytes" else 8 * (nb - 1 - i)
+                        t_ = ("cast", a0[i], ty)
+                        if sh:
+                            t_ = mk_bin("Shl", t_, C(sh, "i32"), ty)
+                        acc = t_ if acc is None else mk_bin("BitOr", acc, t_, ty)
+                    return acc
                 return ("frombytes", f[5:7], freeze(args[0]), ty)
             if f in ("min", "max"):
                 return ("minmax", f, args[0], args[1])
